@@ -201,6 +201,7 @@ static int do_batch(int argc, char **argv) {
                 discards++;
                 std::string k = rr.outcome.msg.substr(0, 60);
                 discard_kinds[k]++;
+                if (discards <= 10) { printf("D %lld %lld step %d\t%s\n", (long long)i, (long long)sub, rr.outcome.step, oneline(rr.outcome.msg).substr(0, 1500).c_str()); fflush(stdout); }
                 if (sub == -1) subcount = 0;  // a scenario whose fault-free run already deviates is not enumerated
             }
             if (log.keep_text && sub == -1) {
